@@ -341,9 +341,9 @@ pub fn nested_program(rng: &mut Rng, depth: usize) -> String {
         }
     }
     let body = if in_fn {
-        *rng.pick(&["// comment\nlet x = 1;\n", "// only a comment\n", "/* block */\n", "/* block */ foo(a, b, c);\n", "let long_name = some_function(argument_one, argument_two, argument_three);\n", "x.iter().map(|y| y + 1).filter(|z| *z > 2).collect::<Vec<_>>();\n", ""])
+        *rng.pick(&["// comment\nlet x = 1;\n", "// only a comment\n", "/* block */\n", "/* block */ foo(a, b, c);\n", "let long_name = some_function(argument_one, argument_two, argument_three);\n", "x.iter().map(|y| y + 1).filter(|z| *z > 2).collect::<Vec<_>>();\n", "macro_rules! m { ($x:expr) => { let y = $x + 1; println!(\"{}\", y); }; }\n", "let s = S { field_one: 1, field_two: 2, ..Default::default() };\n", "let v = vec![1, 2, 3]; let t = (a, b, c); let [p, q] = r;\n", "let Some(x) = y else { return; };\n", "match z { A | B if c => 1, D { e, .. } => 2, _ => 3 }\n", ""])
     } else {
-        *rng.pick(&["// comment\nuse a::b;\n", "/* c */ struct S { a: u32, b: u32 }\n", "// only a comment\n", "/* only a block comment */\n", "// a comment that is fairly long so that it has to be wrapped somewhere\nfn g() {}\n", "fn g(a: u32, b: u32) -> u32 { a + b }\n", ""])
+        *rng.pick(&["// comment\nuse a::b;\n", "/* c */ struct S { a: u32, b: u32 }\n", "// only a comment\n", "/* only a block comment */\n", "// a comment that is fairly long so that it has to be wrapped somewhere\nfn g() {}\n", "fn g(a: u32, b: u32) -> u32 { a + b }\n", "macro_rules! m { ($x:expr) => { let y = $x + 1; println!(\"{}\", y); }; }\n", "macro_rules! n { () => { fn generated() {} }; ($a:ident, $b:ty) => { struct $a($b); }; }\n", "enum E { A = 1, Bb = 2, Ccc { x: u32 }, D(u8, u16) }\n", "pub(crate) const C: [u8; 3] = [1, 2, 3];\nstatic S: &str = \"a string literal that is somewhat long\";\n", "impl<T: Clone + Send> Tr for X<T> where T: Sync { type A = u8; const B: u8 = 1; fn f(&self) {} }\n", "extern \"C\" { fn ext(a: u32) -> u32; static X: u8; }\n", "#[derive(Debug)]\n#[cfg(test)]\nunion U { a: u32, b: f32 }\n", ""])
     };
     s.push_str(body);
     for c in closers.iter().rev() {
